@@ -393,7 +393,17 @@ class Sccp:
 
     @staticmethod
     def _project(v, p):
-        if v is None or v[0] == "s":
+        if v is None:
+            return None
+        if v[0] == "s":
+            # one of several values: a reference to it is still it; narrowed to a variant, only the members of that variant
+            if p == "deref":
+                return v
+            if isinstance(p, tuple) and p[0] == "dc":
+                ms = [x for x in v[1] if x[0] == "v" and x[1] == p[1]]
+                if len(ms) == 1:
+                    return ms[0]
+                return ("s", frozenset(ms)) if ms else None
             return None
         if p == "deref":
             return v
@@ -861,6 +871,17 @@ def combinator_model(facts, inner=None, depth=0, field_model=None, callees=None)
             return run_callee(facts.fns[call.callee], argv)
         p = call.path
         a0 = argv[0] if argv else None
+        if a0 is not None and a0[0] == "s" and p.startswith(("core::option::Option::", "core::result::Result::")):
+            # one of several receivers: the answers for each
+            out = None
+            for m_ in a0[1]:
+                r_ = model(call, [m_] + list(argv[1:]))
+                if r_ is None:
+                    return None
+                out = r_ if out is None else (out if out == r_ else _union(out, r_))
+                if out is None:
+                    return None
+            return out
         va = variant(a0)
         if p in ("core::cmp::PartialEq::eq", "core::cmp::PartialEq::ne") and len(argv) == 2 and \
                 all(a is not None and a[0] in ("i", "v") for a in argv):
